@@ -11,6 +11,7 @@ structure DState where
   sgrid : Span.SGrid := []
   pkg : Drv.Pkg.St := {}
   sty : Drv.Styles.St := {}
+  heap : Drv.Heap.St := []
 
 def step (st : DState) (line : String) : DState × String :=
   match (line.trimAscii.toString.splitOn " ").filter (· ≠ "") with
@@ -27,6 +28,7 @@ def step (st : DState) (line : String) : DState × String :=
   | "pp" :: rest => (st, Drv.Pretty.handle rest)
   | "rg" :: rest => (st, Drv.Registry.handle rest)
   | "sy" :: rest => let (p, o) := Drv.Styles.handle st.sty rest; ({ st with sty := p }, o)
+  | "hp" :: rest => let (p, o) := Drv.Heap.handle st.heap rest; ({ st with heap := p }, o)
   | "pk" :: rest => let (p, o) := Drv.Pkg.handle st.pkg rest; ({ st with pkg := p }, o)
   | "row" :: "trav" :: rest => (st, Drv.Row.handleTrav st.row rest)
   | "row" :: rest => let (r, o) := Drv.Row.handle st.row rest; ({ st with row := r }, o)
